@@ -56,8 +56,14 @@ def probes():
     # ... and they call a macro with the SAME call text but different bodies (a cache of expansions kept across parses)
     mac = lambda body: f"macro work [ {body} ]\n"  # noqa: E731
     extra = lambda eff: {"tasks": ps[0]["tasks"] + [{"id": "mw", "raw": ["${work r2}"]}]}  # noqa: E731
-    texts.append(mac("effort 2h allocate ${1}") + render.render({**ps[0], **extra(0), "pwh": [("mon - fri", ["8:00 - 12:00"])]}))
-    texts.append(mac("effort 5h allocate ${1} priority 900") + render.render({**ps[0], **extra(0), "vacations": [("2025-01-07", "2025-01-09")]}))
+    # ... and their reports show values that are EQUAL as numbers but of different type: priority 500 / 700 (integers) in one,
+    # costs of exactly 500.00 and 700.00 (floats) in the other (a cache of formatted cells keyed by value shows when they meet)
+    rep_prio = 'taskreport rp "rp" {\n  formats json, csv\n  columns id, priority\n}'
+    rep_cost = 'taskreport rc "rc" {\n  formats json, csv\n  columns id, cost\n}'
+    money = {"resources": [{"id": "r1", "rate": 250.0}, {"id": "r2", "eff": 0.7, "rate": 350.0}],
+             "tasks": [T("a", 120), T("b", 50, deps=["a"]), T("c", 84, "r2", prio=700), {"id": "mw", "raw": ["${work r2}"]}]}
+    texts.append(mac("effort 2h allocate ${1}") + render.render({**ps[0], **extra(0), "pwh": [("mon - fri", ["8:00 - 12:00"])], "reports": [rep, rep_prio]}))
+    texts.append(mac("effort 5h allocate ${1} priority 900") + render.render({**ps[0], **money, "vacations": [("2025-01-07", "2025-01-09")], "reports": [rep, rep_cost]}))
     return texts
 
 
